@@ -248,6 +248,20 @@ func (x *Exec) loopHeader(fr *Frame, li *loopInfo, st *State, reach string) {
 		}
 		li.frameHeaps = names
 	}
+	// range-index phis (for i := range s) start at -1 and only ever increase by one: "rangeindex >= -1"
+	// is an automatic invariant (its entry/preservation obligations are generated like any other)
+	for _, ins := range li.header.Instrs {
+		phi, ok := ins.(*ssa.Phi)
+		if !ok {
+			break
+		}
+		if phi.Comment == "rangeindex" {
+			if ev, ok := entryVals[phi].(Sc); ok {
+				x.oblige(fmt.Sprintf("%s/inv.entry/loop%d.autorange", funcKey(x.fn), li.ordinal), "inv.entry", reach, sx("and", sx(">=", ev.T, "(- 1)"), sx("<", ev.T, "9223372036854775807")), nil, "automatic invariant: -1 <= range index < MaxInt on entry")
+			}
+			x.assume(reach, sx("and", sx(">=", fr.vals[phi].(Sc).T, "(- 1)"), sx("<", fr.vals[phi].(Sc).T, "9223372036854775807")))
+		}
+	}
 	// 3. assume invariant for an arbitrary iteration
 	c2 := x.newCtx(st, fr.entry, fr.con.Pkg, reach, fr)
 	x.loopEnv(fr, li, c2, func(p *ssa.Phi) Val { return fr.vals[p] })
@@ -285,6 +299,17 @@ func (x *Exec) loopBackEdge(fr *Frame, li *loopInfo, from *ssa.BasicBlock, cond 
 			lbl = fmt.Sprint(k)
 		}
 		x.oblige(fmt.Sprintf("%s/inv.preserve/loop%d.%s", funcKey(x.fn), li.ordinal, lbl), "inv.preserve", cond, f, cl, "loop invariant preserved: "+cl.Text)
+	}
+	for _, ins := range li.header.Instrs {
+		phi, ok := ins.(*ssa.Phi)
+		if !ok {
+			break
+		}
+		if phi.Comment == "rangeindex" {
+			if bv, ok := x.value(fr, phi.Edges[idx]).(Sc); ok {
+				x.oblige(fmt.Sprintf("%s/inv.preserve/loop%d.autorange", funcKey(x.fn), li.ordinal), "inv.preserve", cond, sx("and", sx(">=", bv.T, "(- 1)"), sx("<", bv.T, "9223372036854775807")), nil, "automatic invariant: -1 <= range index < MaxInt preserved")
+			}
+		}
 	}
 	if x.hasMods && fr.top {
 		for _, n := range li.frameHeaps {
@@ -519,8 +544,8 @@ func (x *Exec) frameObligations(fr *Frame, r retRec, ri int, entry *State, con *
 			}
 			continue
 		}
-		if strings.HasPrefix(n, "IT$") || strings.HasPrefix(n, "A$"+sanitize(funcKey(x.fn))+"$") {
-			continue // function-local cells
+		if strings.HasPrefix(n, "IT$") || strings.HasPrefix(n, "G$calls$") || strings.HasPrefix(n, "A$"+sanitize(funcKey(x.fn))+"$") {
+			continue // function-local cells, engine-managed call counters
 		}
 		if nonghost && !isGhostHeap(n, x.eng) {
 			continue
@@ -563,7 +588,7 @@ func ancestors(fn *ssa.Function) map[int]map[int]bool {
 // frameFormula: "heap n (current version cur) differs from its initial version only at locations the
 // modifies clause lists, or at objects allocated after entry". "" if unconstrained (whole-heap modifies).
 func (x *Exec) frameFormula(n, cur string, entry *State) string {
-	if n == "*" || strings.HasPrefix(n, "IT$") || strings.HasPrefix(n, "A$"+sanitize(funcKey(x.fn))+"$") {
+	if n == "*" || strings.HasPrefix(n, "IT$") || strings.HasPrefix(n, "G$calls$") || strings.HasPrefix(n, "A$"+sanitize(funcKey(x.fn))+"$") {
 		return ""
 	}
 	if strings.HasPrefix(cur, "?") {
